@@ -487,14 +487,14 @@ example : rackCount exRing 0 = 3 ∧ rackCount exRing 1 = 3 ∧ (uniqueNodes (dc
 example : (ntsReplicas exRing 160 0 2).map (·.id) = [2, 3] ∧ (ntsReplicas exRing 160 0 3).map (·.id) = [2, 3, 7] ∧
     (ntsReplicas exRing 160 0 4).map (·.id) = [2, 3, 1, 7] ∧ (ntsReplicas exRing 160 0 9).map (·.id) = [2, 3, 1, 7] ∧
     (specNtsDc exRing 160 0 4).map (·.id) = [2, 3, 1, 7] ∧ (specSimple exRing 3 160).map (·.id) = [5, 2, 3] := by decide
--- the unrestricted NTS set {eu: 2, us: 0} (the F6 shape): iterated by datacenter, ordered by ring position
-example : let loc := locOf exRing [.nts [(0, 3)], .simple 2]
-    let rs := replicasForToken loc 160 (.nts [(0, 2), (1, 0)]) none
-    rs.len loc = 2 ∧ (rs.iter loc).map (·.id) = [2, 3] ∧ (rs.ordered loc).map (·.id) = [2, 3] ∧
-      (rs.choose loc 1).map (·.id) = some 3 := by decide +kernel
-example : let loc := locOf exRing [.nts [(0, 3)], .simple 2]
-    let rs := replicasForToken loc 160 (.nts [(0, 2), (1, 2)]) none
-    rs.len loc = 4 ∧ (rs.iter loc).map (·.id) = [2, 3, 5, 4] ∧ (rs.ordered loc).map (·.id) = [5, 2, 3, 4] := by
-  decide +kernel
+-- the unrestricted NTS set {eu: 2, us: 0} (the F6 shape) and {eu: 2, us: 2}: iterated by datacenter, ordered by
+-- ring position (`ntsIter` / `ntsOrdered` are what `iter` / `ordered` are shown to equal in `views_agree`;
+-- `decide` cannot run `precompute` itself because `mergeSort` is defined by well-founded recursion — the
+-- precomputed path is exercised concretely by the differential run)
+example : (ntsIter exRing [(0, 2), (1, 0)] 160).map (·.id) = [2, 3] ∧
+    (ntsOrdered exRing [(0, 2), (1, 0)] 160).map (·.id) = [2, 3] ∧
+    (ntsIter exRing [(0, 2), (1, 2)] 160).map (·.id) = [2, 3, 5, 4] ∧
+    (ntsOrdered exRing [(0, 2), (1, 2)] 160).map (·.id) = [5, 2, 3, 4] ∧
+    ((List.map (·.1) [(0, 2), (1, 2)]).Nodup) := by decide
 
 end ScyllaVerif.Props.C04
